@@ -197,9 +197,24 @@ func judgeC03(prop string, out *plan.Outcome, mode int, i int, how string, exp e
 
 // tableDiff compares the collector's template table with the model's.
 func tableDiff(cp *collector.CollectingProcess, m *colModel) string {
-	got := cp.VerifTemplates()
-	if len(got) != len(m.tmpls) {
-		return fmt.Sprintf("collector holds %d templates, model %d", len(got), len(m.tmpls))
+	// Templates that define nothing (no field) are left out on both sides: whether such a template is
+	// kept as an entry or not makes no difference to any later message (data for its id is refused
+	// either way); what matters is that it took the place of the older definition.
+	all := cp.VerifTemplates()
+	got := all[:0:0]
+	for _, t := range all {
+		if len(t.IEs) > 0 {
+			got = append(got, t)
+		}
+	}
+	want := 0
+	for _, fs := range m.tmpls {
+		if len(fs) > 0 {
+			want++
+		}
+	}
+	if len(got) != want {
+		return fmt.Sprintf("collector holds %d templates, model %d", len(got), want)
 	}
 	for _, t := range got {
 		fs, ok := m.tmpls[tkey{t.Domain, t.ID}]
